@@ -432,12 +432,16 @@ type OCSPSpec struct {
 	Embed      *x509.Certificate // embedded responder certificate (nil: none)
 	ResponderIDOf *x509.Certificate // certificate whose subject is put into the ResponderID (default: the signer's)
 	CorruptSig bool
+	RevokedAt  *time.Time // revocation time of a Revoked answer (default: an hour before thisUpdate)
 }
 
 func buildOCSP(issuer *Issued, spec OCSPSpec) []byte {
 	tmpl := ocsp.Response{Status: spec.Status, SerialNumber: spec.Serial, ThisUpdate: spec.ThisUpdate, NextUpdate: spec.NextUpdate}
 	if spec.Status == ocsp.Revoked {
 		tmpl.RevokedAt = spec.ThisUpdate.Add(-time.Hour)
+		if spec.RevokedAt != nil {
+			tmpl.RevokedAt = *spec.RevokedAt
+		}
 		tmpl.RevocationReason = ocsp.KeyCompromise
 	}
 	if spec.InvDate != nil {
